@@ -122,3 +122,24 @@ Example C06_honest_broker_nonvacuous :
   broker_accepts_poll bcfg (Some (relay_pattern pcfg)) = true
   /\ rule_accepts (allowed_pattern bcfg) (bs "snowflake.torproject.net") = true.
 Proof. vm_compute. repeat split. Qed.
+
+(* ---- the gate composed with the matching machine (Model/Broker.v): "never gives such a proxy a client" ----
+   A proxy poll enters the matching machine only through the relay-pattern gate. A poll whose pattern (for a
+   legacy poll: the presumed pattern) is not judged a superset of the allowed pattern is answered with the
+   rejection and changes NOTHING: no entry, no heap membership, no id-map binding exists for it, so by C02
+   (clients are only ever stored in entries) no client offer can reach it, in any continuation. *)
+From Snow Require Import Model.Broker Proofs.BrokerProofs Proofs.BrokerGateProofs.
+
+Theorem C06_rejected_poll_changes_nothing : forall cfg v s sd n pt cl pat,
+  broker_accepts_poll cfg pat = false ->
+  gstep cfg v s (G_ProxyPoll sd n pt cl pat) = Some (s, Some RejectedPattern).
+Proof. exact rejected_poll_changes_nothing. Qed.
+
+Theorem C06_registered_only_if_superset : forall cfg v s sd n pt cl pat s',
+  gstep cfg v s (G_ProxyPoll sd n pt cl pat) = Some (s', Some Registered) ->
+  broker_accepts_poll cfg pat = true /\ length (entries s') = S (length (entries s)).
+Proof. exact registered_only_if_superset. Qed.
+
+Theorem C06_gated_machine_refines_broker : forall cfg v s g s' r,
+  gstep cfg v s g = Some (s', r) -> s' = s \/ exists l, step v s l = Some s'.
+Proof. exact gstep_refines. Qed.
